@@ -75,6 +75,8 @@ pub mod runtime {
         pub fn build(&mut self) -> std::io::Result<Runtime> {
             // idleness signal for the simulator (run queue empty)
             self.inner.on_thread_park(svgbob_verif_srvsim::on_park);
+            // the clock belongs to the simulator: it only moves by `Tick` actions
+            self.inner.start_paused(true);
             Ok(Runtime { inner: self.inner.build()? })
         }
     }
